@@ -10,7 +10,7 @@ func runC21(c *Ctx) {
 	c.R.Rule("U-order", "the histories committed while processing a block (State.History, Arbiters.History, ...) are all rolled back by Arbiters.RollbackTo, in reverse commit order where their changes overlap")
 	c.uOrder("U-order", "dpos/state", c.fn("dpos/state", "Arbiters", "ProcessBlock"), c.fn("dpos/state", "Arbiters", "RollbackTo"), map[string]string{}, nil)
 	c.uEffects("U-effects", "dpos/state", 85, map[string]string{
-		"(*dpos/state.State).processTransactions|Producer.expiredNFTVotes:assign":    "lazy initialisation of a nil map before the insert (`if m == nil { m = make }`); the rollback deletes the inserted key and an empty map is observationally the nil map",
+		"(*dpos/state.State).processTransactions|Producer.expiredNFTVotes:assign":      "lazy initialisation of a nil map before the insert (`if m == nil { m = make }`); the rollback deletes the inserted key and an empty map is observationally the nil map",
 		"(*dpos/state.State).processVotingContent|Producer.detailedDPoSV2Votes:assign": "lazy initialisation of a nil map before the insert; the rollback deletes the inserted keys",
 	})
 }
@@ -20,7 +20,7 @@ func runC22(c *Ctx) {
 	c.R.Rule("U-order", "the committee's histories are rolled back by Committee.RollbackTo; two histories whose recorded changes write a common location are rolled back in the reverse of the order in which Committee.ProcessBlock commits them")
 	c.uEffects("U-effects", "cr/state", 60, map[string]string{})
 	c.uOrder("U-order", "cr/state", c.fn("cr/state", "Committee", "ProcessBlock"), c.fn("cr/state", "Committee", "RollbackTo"), map[string]string{"rollbackTo": "State.History"}, map[string]string{
-		"State.History<Committee.inactiveCRHistory":            "not decided: both histories write CRMember.MemberState/DepositInfo.Penalty at type granularity and inactiveCRHistory is rolled back after State.History although committed later; whether one block can make both touch the same member was not demonstrated, so this ordering is neither claimed correct nor reported",
+		"State.History<Committee.inactiveCRHistory":              "not decided: both histories write CRMember.MemberState/DepositInfo.Penalty at type granularity and inactiveCRHistory is rolled back after State.History although committed later; whether one block can make both touch the same member was not demonstrated, so this ordering is neither claimed correct nor reported",
 		"Committee.committeeHistory<Committee.inactiveCRHistory": "not decided: same situation as State.History<inactiveCRHistory (type-granularity overlap, no demonstrated interference)",
 	})
 }
